@@ -345,7 +345,7 @@ void prop(const Case& cs) {
 
 rc::Gen<Case> gen_main() {
   using namespace vf;
-  auto inp = op4("inp", range(0, 2999), rc::gen::weightedOneOf<int64_t>({{1, range(0, 3)}, {3, range(4, 200)}, {4, range(200, 2499)}}), range(0, 5), range(0, 3));
+  auto inp = op4("inp", range(0, 2999), rc::gen::weightedOneOf<int64_t>({{1, range(0, 3)}, {4, range(4, 30)}, {2, range(31, 200)}, {4, range(200, 2499)}}), range(0, 5), range(0, 3));
   // op4 has only four arguments: add the form as a fifth by mapping
   auto inp5 = rc::gen::map(rc::gen::tuple(inp, range(0, F_NFORMS - 1)), [](std::tuple<Op, int64_t> t) { Op o = std::get<0>(t); o.a.push_back(std::get<1>(t)); return o; });
   auto hist = choose({
